@@ -19,7 +19,7 @@ class GateError(Exception):
     pass
 
 
-B_RE = re.compile(r'^/\*@([BH]) (\S+) (\d+) (\d+) (.*)\*/$', re.S)
+B_RE = re.compile(r'^/\*@([BHS]) (\S+) (\d+) (\d+) (.*)\*/$', re.S)
 RW_RE = re.compile(r'^/\*~([\w+]+):([A-Za-z0-9+/=]*)~\*/$')
 
 
@@ -116,9 +116,9 @@ def check_generated(gen_path):
         except LexError as e:
             raise GateError('%s: real span of %s is not balanced: %s' % (rel, path, e))
         # last selector must occur in the span
-        last_sel = path.split(' / ')[-1].strip()
+        last_sel = path.split(' :: ')[0].split(' / ')[-1].strip()
         kw = last_sel.split()[0]
-        if kw != 'impl':
+        if kw != 'impl' and kind != 'S':
             name = last_sel.split()[1]
             texts = [x.text for x in st]
             ok = any(texts[k] == kw and texts[k + 1] == name for k in range(len(texts) - 1))
